@@ -2,8 +2,8 @@
 import glob, hashlib, os, re
 
 LEAN_MODULE = "RemocModel.Props.C05"
-LEAN_EXES = ["wiring"]
-HARNESS_BINS = ["wiring"]
+LEAN_EXES = ["wiring", "link"]
+HARNESS_BINS = ["wiring", "mux"]
 THEOREMS = [
     "Remoc.Wiring.wiring_one_hop",
     "Remoc.Wiring.wiring_exclusive",
@@ -15,6 +15,12 @@ THEOREMS = [
     "Remoc.Wiring.interlock_failed_send_restores",
     "Remoc.Wiring.unconnectable_is_error",
     "Remoc.Wiring.connInv_step",
+    "Remoc.Link.forward_requests_paired",
+    "Remoc.Link.fport_step",
+    "Remoc.Link.forward_ids_on_wire",
+    "Remoc.Link.wire_step",
+    "Remoc.Wiring.forward_model_hop",
+    "Remoc.Wiring.forward_preserves_wiring_of_model",
 ]
 RULE = ("real values with 0-12 channel halves (mpsc, oneshot, watch sender/receiver halves, broadcast receivers, bin and lr halves) "
         "at Vec / Option / tuple / enum / nested-struct / HashMap positions, sent over a chain of 1-3 real connections (Connect::io "
@@ -26,12 +32,17 @@ RULE = ("real values with 0-12 channel halves (mpsc, oneshot, watch sender/recei
         "back and work locally), no operation may hang (paused clock); retry scenario for bin / lr halves: a first send containing the "
         "half that stays fails after serialization (sender endpoint out of ports, or max_item_size) and hands it back, then the OTHER "
         "half travels in the value - it must be wired to the handed-back counterpart like an ordinary local-remote half. A case is non-trivial if at least 2 halves were exercised or a "
-        "fault scenario ran; distinct = distinct (shape, scenario, results) sequence.")
+        "fault scenario ran; distinct = distinct (shape, scenario, results) sequence. Forwarded port requests on the chmux level (coverage.forwarded_port_requests): batches of 2-4 port "
+        "requests (custom ids in 3 of 4) sent on a port that a real chmux::forward relays to a second port; the ids in the PortData frames the forwarding endpoint puts on the wire "
+        "must be those it received, in order (reassembled per batch); the destination accepts / rejects / rejects-with-no-ports the requests in a random order and every origin connect must "
+        "resolve exactly as the request with its id was answered, never before; a distinct label is sent into every half in both directions and must come out of the *other* half with the "
+        "same id; non-trivial = a label came out of a forwarded half or a request was rejected.")
 TRUSTED_BASE = [
     "M_wiring (lean/RemocModel/Base/Wiring.lean): values as lists of halves in serialization order, id-keyed matching, forward hops "
     "with preserved ids, re-serialization hops with relays, interlock, resolution of one connect request; that chmux pairs an accepted "
     "request with the Connect of the requesting port and never allocates a port number that is in use is C10 / C07",
-    "the port numbers / ids actually used on the wire are not observed by this harness (only the resulting connectivity is)",
+    "the port numbers / ids actually used on the wire are not observed by the wiring harness (only the resulting connectivity is); the mux scripts `link-fwdports` observe them for chmux::forward",
+    "M_forward, port-request branch (lean/RemocModel/Link/Forward.lean): allocator answers and connect answers are environment labels; that Sender::connect returns its Connects in the order of the requests is read from sender.rs",
     "harness (harness/src/bin/wiring.rs) and driver (lean/Driver/Wiring.lean)",
 ]
 ASSUMPTIONS = ["codec round trip of the port numbers carried inside the transported halves"]
@@ -39,7 +50,10 @@ LEVEL_TEXT = ("Lean 4 theorems for all values (any number / mix / order of halve
               "orders of request arrival, all hop counts: the received half carrying p is connected to exactly the half serialized "
               "with p (one hop, chmux::forward chains with preserved ids, re-serialization chains with relays), no request serves two "
               "halves; repaired interlock admits one local-remote connection; every decided connect request has resolved both ends "
-              "(connected / error / never existed) at quiescence. Tied to the code by label transfers through every half of real values "
+              "(connected / error / never existed) at quiescence. The chmux::forward hop is no longer assumed: in every reachable state of the forwarder model (as coded) a forwarded batch carries the received ids in order on "
+              "pairwise distinct fresh ports, the k-th spawned task owns request k and awaits connect k, accepts only if that connect was accepted and rejects with the no-ports classification of that connect's failure "
+              "(forward_requests_paired; fails, kernel-checked, for the reversed pairing); the hop of a recorded batch equals the wiring model's forwardHop (forward_model_hop) and forward_preserves_wiring_of_model "
+              "derives the chain theorem from batches recorded by the forwarder model. Tied to the code by label transfers through every half of real values "
               "over 1-3 real connections. Defect FB2 (interlock marked the wrong half; repaired in /repo 65d6d78, `interlock_pinned_ineffective` is the theorem about the pre-repair variant) and finding FB3 are reproduced by the harness.")
 LEVEL_NOTE = ("Trusted: Lean kernel + {propext, Quot.sound}; hand-written M_wiring; C10/C07 for the port table. The correspondence "
               "observes connectivity, not the ids on the wire.")
@@ -65,8 +79,12 @@ def _split_cases(trace_path):
 
 
 def run(ctx, replay=None):
+    from vlib.fwdcheck import run_fwd_ports, MARK
     quick = ctx.tier == "quick"
     jobs = []
+    if replay and MARK in open(replay).read(4000):
+        ctx.coverage.update(run_fwd_ports(ctx, replay))
+        return
     if replay:
         jobs.append(("replay", ["run", replay], None))
     else:
@@ -147,3 +165,10 @@ def run(ctx, replay=None):
     stats.update(dist)
     ctx.coverage.update({"evaluations": total, "distinct_nontrivial": nontrivial, "traces_validated_against_impl": total,
                          "samples": samples, "input_distribution": stats})
+    if not replay:
+        # forwarded port requests on the chmux level (ids on the wire, accept/reject pairing, labels through the halves)
+        fw = run_fwd_ports(ctx)
+        ctx.coverage["forwarded_port_requests"] = fw
+        ctx.coverage["evaluations"] += fw["evaluations"]
+        ctx.coverage["distinct_nontrivial"] += fw["distinct_nontrivial"]
+        ctx.coverage["traces_validated_against_impl"] += fw["evaluations"]
